@@ -459,6 +459,10 @@ def run(db, tier):
     trivially_ok = not any(t.get("f") for _, t in sv.calls()) and len(sv.blocks) <= 2
     rep.check(trivially_ok, "R-EXPECT-ERR", "Signature::validate|cannot fail", sv.loc, "validate() has no failing path (audit witness for set_ins_abi)",
               "Signature::validate can now fail, but set_ins_abi unwraps its result on user-supplied signatures")
+    # an AST child the type checker skips reaches later passes that panic on type errors (rule shared with C09)
+    from props import c09
+    rep.rule("R-PARTIAL-ITER", "the type checker never walks a collection of AST nodes through an element-dropping adaptor (shared with C09)")
+    c09.rule_partial_iter(db, rep)
     return rep
 
 
